@@ -13,7 +13,9 @@ STREAM_MODULES = ["LunaVerif.Lemmas.C07Stream", "LunaVerif.Lemmas.C07StreamCycle
                   # every max_packet_size (event-level model with start_position += max_packet_size), the GET_DESCRIPTOR data
                   # stage, the closed loops and the LegalHost chain for 8 / 16 / 32 / 64; additional request handlers
                   "LunaVerif.Lemmas.C07Mps", "LunaVerif.Lemmas.C07MpsExamples", "LunaVerif.Lemmas.C07MpsRead",
-                  "LunaVerif.Lemmas.C07MpsClosed", "LunaVerif.Lemmas.C07MpsLegal", "LunaVerif.Lemmas.C07Extra"]
+                  "LunaVerif.Lemmas.C07MpsClosed", "LunaVerif.Lemmas.C07MpsLegal", "LunaVerif.Lemmas.C07Extra",
+                  # stepM / coreM (Model/Device/ControlM.lean, the model drv_dev steps) against step / core from the same state
+                  "LunaVerif.Lemmas.DeviceStepsM"]
 # the C07 stage theorems stated of the cycle-level closed loop (only C07 audits this one)
 TRANSFER_MODULES = ["LunaVerif.Lemmas.C07Transfer", "LunaVerif.Lemmas.C07MpsTransfer"]
 LEAN_MODULES = ["LunaVerif.Props.C07"] + dev_ctl.CYC_MODULES + STREAM_MODULES + TRANSFER_MODULES
@@ -35,7 +37,7 @@ REQUIRED_THEOREMS = ["stage_follows_setup", "data_in_only_after_in_setup", "in_t
                      "readInv_legal_mps", "legal_read_in_order_mps", "closed2_refines_legal_run_mps",
                      "closed2_data_only_after_in_setup_mps", "closed2_in_answered_only_in_data_or_status_in_mps",
                      "stage_follows_setup_mps", "data_in_only_after_in_setup_mps", "out_data_answered_only_in_status_out_mps",
-                     "setup_always_restarts_mps", "other_endpoint_tokens_are_stutter_mps",
+                     "setup_always_restarts_mps", "other_endpoint_tokens_are_stutter_mps", "coreM_ctl", "stepM_ctl",
                      "muxN_spec", "stepX_state", "stepX_unclaimed", "stepX_extra_owner", "stepX_conflict",
                      "extra_handlers_invisible", "cycle_refines_event_streams_run_extra"]
 RULE_SYS = ("; next to it the two streamer models of the closed loops (Model/Usb2/ControlCycSys.lean: StreamGen.serStep wired to "
@@ -55,25 +57,30 @@ RULE_STATUS = ("; status stage IN: the host repeats the status IN (up to three t
 RULE = dev_ctl.RULE + RULE_STATUS + dev_ctl.CYC_RULE + RULE_SYS
 ASSUMPTIONS = dev_ctl.ASSUMPTIONS
 PARTIAL_STREAMS = (
-    "the property theorems are about the event-level model, tied to the whole USBDevice by event-by-event co-simulation (always "
-    "with max_packet_size = 64); the cycle-level model of USBControlEndpoint + request multiplexer + StandardRequestHandler "
+    "the property theorems are about the event-level model, tied to the whole USBDevice by event-by-event co-simulation at control "
+    "max packet sizes 8 / 16 / 32 / 64 (the shared driver drv_dev steps with stepM and reports legalEventM of "
+    "Model/Device/ControlM.lean: Device.step / legalEvent with start_position += c.maxPacket, which ARE Device.step / legalEvent "
+    "for 64 -- stepM_eq_step, legalEventM_64); the cycle-level model of USBControlEndpoint + request multiplexer + StandardRequestHandler "
     "(Model/Usb2/ControlCyc.lean, co-simulated cycle by cycle against the real standalone control endpoint with max packet "
     "sizes 8 / 16 / 32 / 64) is proved to simulate the event-level model along EVERY event history for EVERY max_packet_size "
     "(cycle_refines_event_streams_run_mps, no hypothesis on the size: all handler states incl. the GET_STATUS / "
     "GET_CONFIGURATION / GET_DESCRIPTOR data stages with their payload bytes, data PIDs and the start_position advance by "
     "max_packet_size on the gated ACK, and bus resets); the event-level model of that theorem is coreM / stepM "
     "(Lemmas/C07Mps.lean) = Device.core / Device.step with start_position += c.maxPacket, which IS Device.core for 64 "
-    "(coreM_eq_core; Device.core itself advances by the literal 64, so for other sizes the event-level side is tied to the "
-    "gateware only through this refinement and the cycle-level co-simulation, there is no event-level co-simulation of the whole "
-    "USBDevice at 8 / 16 / 32); get_descriptor_data_stage_mps / cyc_get_descriptor_data_stage_mps: for max_packet_size in "
+    "(coreM_eq_core; Device.core itself, on which C12 / C14 / C20 / C57 build, advances by the literal 64; coreM / stepM is the "
+    "model the event-level co-simulation of the whole USBDevice runs at all four sizes, so both sides of the refinement are "
+    "co-simulated against the gateware at every size); get_descriptor_data_stage_mps / cyc_get_descriptor_data_stage_mps: for max_packet_size in "
     "{8, 16, 32, 64} the data stage read by IN + ACK pairs is exactly C09's Desc.dataStage (mps-sized chunks of the first "
     "wLength bytes, zero-length packet iff the total is a multiple of mps and smaller than wLength, DATA1 / DATA0 alternating), "
     "at event level and on the cycle-level bus; the property theorems of Props/C07.lean are re-stated for coreM / stepM "
     "(Lemmas/C07MpsTransfer.lean: stage_follows_setup_mps, data_in_only_after_in_setup_mps, "
     "in_token_answered_only_in_data_or_status_in_mps, out_data_answered_only_in_status_out_mps, setup_always_restarts_mps, "
     "other_endpoint_tokens_are_stutter_mps, other_endpoint_transactions_are_stutter_mps) and the data-stage / IN-token rules "
-    "transferred to the cycle-level closed loop for the four sizes; the C08 / C10 theorems are stated for the 64 model only "
-    "(they do not read start_position); in the refinement theorem the StreamSerializer "
+    "transferred to the cycle-level closed loop for the four sizes; the C08 and C10 property theorems are re-stated for coreM / stepM / "
+    "LegalHostM as well (Lemmas/C08Mps.lean: address_changes_only_on_status_ack_mps, configuration_changes_only_on_status_ack_mps "
+    "and the one-step theorems; Lemmas/C10Mps.lean: unsupported_never_answered_mps, handling_step_mps, "
+    "unsupported_setup_establishes_handling_mps; Lemmas/DeviceStepsM.lean coreM_ctl / stepM_ctl: from the same state the two "
+    "models differ in start_position and the LegalHost ghost only); in the refinement theorem the StreamSerializer "
     "'transmitter' and the descriptor handler are INPUTS of the cycle-level model, constrained in the expansion of an "
     "event by their stream contract (silent unless started; after `start` silent for lat >= 1 cycles, then the answer byte by "
     "byte, each held until tx.ready, `first`/`last` flags, ZLP = valid & last & ~first, missing descriptor = one stall "
